@@ -16,7 +16,7 @@ A function the translator could not read is `…_available = false` and its theo
 correspondence runs only); a function it read whose control flow differs from the model's makes the theorem fail.
 -/
 import NdInterp.Gen.Control
-import NdInterp.Model.Vector
+import NdInterp.Model.Linear
 
 namespace NdInterp
 
@@ -182,6 +182,233 @@ theorem FT_ctl_lower_index (xs : List α) (q : α) :
                      | rfl
                      | (by_cases hlt : Cmp.lt q nx = true <;> simp only [hlt, ↓reduceIte, Bool.false_eq_true])
                  · simp only [hc, ↓reduceIte, Bool.false_eq_true])
+
+end
+
+/-! ### accessors of `Interp1D` / `Interp2D` and `interp_into` of Linear / Bilinear -/
+
+section
+variable {α : Type} [Cmp α]
+
+/-- the closed-range test as the generated accessors compute it -/
+theorem inRange_gen_eq (xs : List α) (x : α)
+    (f : List α → α → Except Fault Bool)
+    (hf : f xs x = (match xs[0]? with
+      | none => .error .panic
+      | some r1 =>
+        if Cmp.le r1 x then
+          if 1 ≤ xs.length then
+            match xs[(xs.length - 1)]? with
+            | none => .error .panic
+            | some r2 => if Cmp.le x r2 then .ok true else .ok false
+          else .error .panic
+        else .ok false)) :
+    f xs x = isInRange xs x := by
+  rw [hf]
+  unfold isInRange
+  cases h0 : xs[0]? with
+  | none => rfl
+  | some x0 =>
+    have hlen : 1 ≤ xs.length := by
+      rcases xs with _ | ⟨_, _⟩
+      · simp at h0
+      · simp
+    simp only [hlen, ↓reduceIte]
+    cases Cmp.le x0 x with
+    | false => rfl
+    | true =>
+      simp only [↓reduceIte]
+      cases xs[xs.length - 1]? with
+      | none => rfl
+      | some xl =>
+        dsimp only
+        cases Cmp.le x xl <;> rfl
+
+theorem FT_ctl_acc1_is_in_range (xs : List α) (x : α) :
+    acc1_is_in_range_available = true → acc1_is_in_range xs x = isInRange xs x := by
+  intro h
+  first
+  | exact absurd h (by decide)
+  | exact inRange_gen_eq xs x acc1_is_in_range rfl
+  | (unfold acc1_is_in_range isInRange
+     simp only [Cmp.ge, Cmp.gt]
+     cases h0 : xs[0]? with
+     | none => rfl
+     | some x0 =>
+       have hlen : 1 ≤ xs.length := by
+         rcases xs with _ | ⟨_, _⟩
+         · simp at h0
+         · simp
+       simp only [hlen, ↓reduceIte]
+       cases Cmp.le x0 x <;> simp only [↓reduceIte, Bool.false_eq_true] <;>
+         cases xs[xs.length - 1]? <;> simp only [] <;> (try cases Cmp.le x _) <;> rfl)
+
+theorem FT_ctl_acc2_is_in_range (xs : List α) (x : α) :
+    (acc2_is_in_x_range_available && acc2_is_in_y_range_available) = true →
+    acc2_is_in_x_range xs x = isInRange xs x ∧ acc2_is_in_y_range xs x = isInRange xs x := by
+  intro h
+  first
+  | exact absurd h (by decide)
+  | exact ⟨inRange_gen_eq xs x acc2_is_in_x_range rfl, inRange_gen_eq xs x acc2_is_in_y_range rfl⟩
+
+end
+
+section
+variable {α V : Type}
+
+theorem FT_ctl_acc1_index_point (xs : List α) (ys : List V) (i : Nat) :
+    acc1_index_point_available = true →
+    acc1_index_point xs ys i = (match xs[i]?, ys[i]? with
+      | some a, some v => .ok (a, v)
+      | _, _ => .error .panic) := by
+  intro h
+  first
+  | exact absurd h (by decide)
+  | (unfold acc1_index_point
+     cases xs[i]? <;> cases ys[i]? <;> rfl)
+
+theorem FT_ctl_acc2_index_point (xs ys : List α) (zs : List (List V)) (i j : Nat) :
+    acc2_index_point_available = true →
+    acc2_index_point xs ys zs i j = (match xs[i]?, ys[j]?, zs[i]? with
+      | some a, some b, some r => (match r[j]? with
+        | some v => .ok (a, b, v)
+        | none => .error .panic)
+      | _, _, _ => .error .panic) := by
+  intro h
+  first
+  | exact absurd h (by decide)
+  | (unfold acc2_index_point
+     cases xs[i]? <;> cases ys[j]? <;> cases hz : zs[i]? <;> try rfl
+     rename_i r
+     dsimp only
+     cases r[j]? <;> rfl)
+
+end
+
+section
+variable {α V : Type} [Cmp α] [Add α] [Sub α] [Mul α] [Div α] [NatCast α] [ToUsize α] [Lanes α V]
+
+theorem FT_ctl_acc1_get_index_left_of (xs : List α) (x : α) :
+    (acc1_get_index_left_of_available && get_lower_index_available && get_lower_index_loop1_available) = true →
+    acc1_get_index_left_of xs x = lowerIndex xs x := by
+  intro h
+  first
+  | exact absurd h (by decide)
+  | (simp only [Bool.and_eq_true] at h
+     unfold acc1_get_index_left_of
+     rw [FT_ctl_lower_index xs x (by simp only [Bool.and_eq_true]; exact ⟨h.1.2, h.2⟩)]
+     cases lowerIndex xs x <;> rfl)
+
+theorem FT_ctl_acc2_get_index_left_of (xs ys : List α) (x y : α) :
+    (acc2_get_index_left_of_available && get_lower_index_available && get_lower_index_loop1_available) = true →
+    acc2_get_index_left_of xs ys x y = (match lowerIndex xs x with
+      | .error e => .error e
+      | .ok i => match lowerIndex ys y with
+        | .error e => .error e
+        | .ok j => .ok (i, j)) := by
+  intro h
+  first
+  | exact absurd h (by decide)
+  | (simp only [Bool.and_eq_true] at h
+     have hl : (get_lower_index_available && get_lower_index_loop1_available) = true := by
+       simp only [Bool.and_eq_true]; exact ⟨h.1.2, h.2⟩
+     unfold acc2_get_index_left_of
+     rw [FT_ctl_lower_index xs x hl, FT_ctl_lower_index ys y hl]
+     cases lowerIndex xs x with
+     | error e => rfl
+     | ok i =>
+       dsimp only
+       cases lowerIndex ys y <;> rfl)
+
+/-- **`Linear::interp_into`** as it is in the source now (range gate, index lookup, the two `index_point` reads, the `Zip` with
+    `calc_frac`) is the model's `linearInterp` -/
+theorem FT_ctl_linear (ext : Bool) (xs : List α) (ys : List V) (x : α) :
+    (linear_interp_into_available && acc1_is_in_range_available && acc1_get_index_left_of_available && acc1_index_point_available &&
+      get_lower_index_available && get_lower_index_loop1_available) = true →
+    linear_interp_into ext xs ys x = linearInterp ext xs ys x := by
+  intro h
+  first
+  | exact absurd h (by decide)
+  | (simp only [Bool.and_eq_true] at h
+     obtain ⟨⟨⟨⟨⟨_, hr⟩, hg⟩, hp⟩, hl1⟩, hl2⟩ := h
+     have hG : ∀ q, acc1_get_index_left_of xs q = lowerIndex xs q := fun q =>
+       FT_ctl_acc1_get_index_left_of xs q (by simp only [Bool.and_eq_true]; exact ⟨⟨hg, hl1⟩, hl2⟩)
+     unfold linear_interp_into linearInterp rangeGate
+     simp only [FT_ctl_acc1_is_in_range _ _ hr, hG, FT_ctl_acc1_index_point _ _ _ hp, rd, bind, Except.bind, pure, Except.pure]
+     cases ext <;> simp only [Bool.false_eq_true, ↓reduceIte]
+     · cases hin : isInRange xs x with
+       | error e => rfl
+       | ok b =>
+         cases b <;> simp only [Bool.false_eq_true, ↓reduceIte]
+         cases lowerIndex xs x with
+         | error e => rfl
+         | ok idx =>
+           dsimp only
+           cases xs[idx]? <;> cases ys[idx]? <;> cases xs[idx + 1]? <;> cases ys[idx + 1]? <;> rfl
+     · cases lowerIndex xs x with
+       | error e => rfl
+       | ok idx =>
+         dsimp only
+         cases xs[idx]? <;> cases ys[idx]? <;> cases xs[idx + 1]? <;> cases ys[idx + 1]? <;> rfl)
+
+set_option hygiene false in
+/-- case analysis over the ten reads of the four `index_point` calls (`xi`, `yi` are the cell indices in scope): every combination of
+    present / absent rows and elements gives the same result on both sides (any absent one is a panic, in whatever order they are read) -/
+local macro "bil_reads" : tactic => `(tactic| (
+  dsimp only
+  cases zs[xi]? with
+  | none => cases xs[xi]? <;> cases ys[yi]? <;> rfl
+  | some r1 =>
+    cases zs[xi + 1]? with
+    | none =>
+      cases xs[xi]? <;> cases ys[yi]? <;> (try dsimp only) <;> cases r1[yi]? <;> (try dsimp only) <;>
+        cases ys[yi + 1]? <;> (try dsimp only) <;> cases r1[yi + 1]? <;> (try dsimp only) <;>
+        cases xs[xi + 1]? <;> rfl
+    | some r2 =>
+      cases xs[xi]? <;> cases ys[yi]? <;> (try dsimp only) <;> cases r1[yi]? <;> (try dsimp only) <;>
+        cases ys[yi + 1]? <;> (try dsimp only) <;> cases r1[yi + 1]? <;> (try dsimp only) <;>
+        cases xs[xi + 1]? <;> (try dsimp only) <;> cases r2[yi]? <;> (try dsimp only) <;> cases r2[yi + 1]? <;> rfl))
+
+/-- **`Bilinear::interp_into`** as it is in the source now (x gate before y gate, the cell lookup, the four `index_point` reads with
+    their index pairs, the `Zip` with the three `calc_frac` calls) is the model's `bilinearInterp` -/
+theorem FT_ctl_bilinear (ext : Bool) (xs ys : List α) (zs : List (List V)) (x y : α) :
+    (bilinear_interp_into_available && acc2_is_in_x_range_available && acc2_is_in_y_range_available &&
+      acc2_get_index_left_of_available && acc2_index_point_available &&
+      get_lower_index_available && get_lower_index_loop1_available) = true →
+    bilinear_interp_into ext xs ys zs x y = bilinearInterp ext xs ys zs x y := by
+  intro h
+  first
+  | exact absurd h (by decide)
+  | (simp only [Bool.and_eq_true] at h
+     obtain ⟨⟨⟨⟨⟨⟨_, hrx⟩, hry⟩, hg⟩, hp⟩, hl1⟩, hl2⟩ := h
+     have hR : ∀ (l : List α) q, acc2_is_in_x_range l q = isInRange l q ∧ acc2_is_in_y_range l q = isInRange l q := fun l q =>
+       FT_ctl_acc2_is_in_range l q (by simp only [Bool.and_eq_true]; exact ⟨hrx, hry⟩)
+     have hG := FT_ctl_acc2_get_index_left_of xs ys x y (by simp only [Bool.and_eq_true]; exact ⟨⟨hg, hl1⟩, hl2⟩)
+     unfold bilinear_interp_into bilinearInterp rangeGate
+     simp only [(hR _ _).1, (hR _ _).2, hG, FT_ctl_acc2_index_point _ _ _ _ _ hp, rd, bind, Except.bind, pure, Except.pure]
+     cases ext <;> simp only [Bool.false_eq_true, ↓reduceIte]
+     · cases isInRange xs x with
+       | error e => rfl
+       | ok b =>
+         cases b <;> simp only [Bool.false_eq_true, ↓reduceIte]
+         cases isInRange ys y with
+         | error e => rfl
+         | ok b2 =>
+           cases b2 <;> simp only [Bool.false_eq_true, ↓reduceIte]
+           cases lowerIndex xs x with
+           | error e => rfl
+           | ok xi =>
+             dsimp only
+             cases lowerIndex ys y with
+             | error e => rfl
+             | ok yi => bil_reads
+     · cases lowerIndex xs x with
+       | error e => rfl
+       | ok xi =>
+         dsimp only
+         cases lowerIndex ys y with
+         | error e => rfl
+         | ok yi => bil_reads)
 
 end
 
